@@ -9,7 +9,7 @@ mod crowd;
 mod exec;
 mod script;
 
-use serde_json::{json, Value};
+use serde_json::json;
 use vcore::{Ctx, Finish, Report, Rng, RunOpts, ScenarioOut};
 
 use crate::engine::Fate;
@@ -250,7 +250,7 @@ fn minimise(sc: &Scenario, seed: u64, class: &str) -> Scenario {
         cur.episodes[i].steps = steps;
     }
     // 3. simplify parameters
-    let mut try_apply = |cur: &mut Scenario, f: &dyn Fn(&mut Scenario)| {
+    let try_apply = |cur: &mut Scenario, f: &dyn Fn(&mut Scenario)| {
         let mut cand = cur.clone();
         f(&mut cand);
         if cand != *cur && fails(&cand) {
@@ -339,7 +339,7 @@ pub fn run(ctx: &Ctx) -> ! {
             "client ports cannot be pinned through the public API (no TcpSocket shim); 4-tuple reuse is forced by spinning the shared ephemeral cursor with UDP port-0 binds".into(),
             "table sizes come from the read-only hook turmoil_net::verif::host_counts_by_id (cfg turmoil_verif)".into(),
         ],
-        min_distinct: ctx.pick(1500, 20_000),
+        min_distinct: ctx.pick(800, 10_000),
         required_counters: vec![
             "connects_started",
             "connect_ok",
@@ -353,6 +353,7 @@ pub fn run(ctx: &Ctx) -> ! {
             "reused_4tuples",
             "listener_drops",
             "crowd_backlog_checks",
+            "scenarios_long",
         ],
     };
 
@@ -373,7 +374,7 @@ pub fn run(ctx: &Ctx) -> ! {
 
     let mut report = Report::default();
     report.max_samples = 2;
-    let total_budget = ctx.pick(50.0, 540.0);
+    let total_budget = ctx.pick(55.0, 330.0);
 
     // directed
     {
@@ -406,7 +407,7 @@ pub fn run(ctx: &Ctx) -> ! {
         };
         let n = all * cfgs.len() as u64;
         let c2 = ctx.clone();
-        let opts = RunOpts { budget_s: total_budget * 0.4, ..RunOpts::default() };
+        let opts = RunOpts { budget_s: total_budget * 0.35, ..RunOpts::default() };
         let rep = vcore::run_parallel(ctx, n, opts, move |i| {
             let cfg = cfgs[(i / all) as usize].clone();
             let g = (i % all) as usize;
@@ -420,9 +421,9 @@ pub fn run(ctx: &Ctx) -> ! {
     }
     // random
     {
-        let n = ctx.pick(5000u64, 3_000_000);
+        let n = ctx.pick(2500u64, 3_000_000);
         let c2 = ctx.clone();
-        let opts = RunOpts { budget_s: total_budget * 0.45, ..RunOpts::default() };
+        let opts = RunOpts { budget_s: total_budget * 0.35, ..RunOpts::default() };
         let rep = vcore::run_parallel(ctx, n, opts, move |i| {
             let seed = c2.scenario_seed("rand", i);
             let mut rng = Rng::new(seed);
@@ -435,9 +436,36 @@ pub fn run(ctx: &Ctx) -> ! {
         });
         report.merge(rep);
     }
+    // long: hundreds of sequential connections in one Net, three pinned
+    // client ports, so ephemeral ports and 4-tuples recur many times
+    {
+        let n = ctx.pick(16u64, 2000);
+        let c2 = ctx.clone();
+        let opts = RunOpts { budget_s: total_budget * 0.15, ..RunOpts::default() };
+        let rep = vcore::run_parallel(ctx, n, opts, move |i| {
+            let seed = c2.scenario_seed("long", i);
+            let mut rng = Rng::new(seed);
+            let cfg = gen_cfg(&mut rng);
+            let k = rng.range(150, 300);
+            let eps: Vec<Episode> = (0..k)
+                .map(|_| {
+                    let mut e = gen_episode(&mut rng, &cfg);
+                    e.steer = Some(rng.below(3) as u8);
+                    e.reuse = rng.chance(0.15);
+                    e
+                })
+                .collect();
+            let sc = Scenario { cfg, episodes: eps };
+            let o = run_scenario(&sc, seed);
+            let mut out = to_out(&sc, seed, o, "long", true);
+            out.seen.push(("connections_in_one_net".into(), format!("{:03}", (k / 50) * 50)));
+            out
+        });
+        report.merge(rep);
+    }
     // crowd (backlog)
     {
-        let n = ctx.pick(2000u64, 400_000);
+        let n = ctx.pick(1500u64, 400_000);
         let c2 = ctx.clone();
         let opts = RunOpts { budget_s: total_budget * 0.15, ..RunOpts::default() };
         let rep = vcore::run_parallel(ctx, n, opts, move |i| {
@@ -455,6 +483,3 @@ pub fn run(ctx: &Ctx) -> ! {
     }
     vcore::finish(ctx, report, fin);
 }
-
-#[allow(dead_code)]
-fn _unused(_: Value) {}
